@@ -6,6 +6,7 @@ CONSTANTS
  MaxCommits = 3
  MaxSteps = 6
  Emit = FALSE
+ Skew = FALSE
  Modes = {"git-push","lfs-push","lfs-push-all"}
  SmudgedWT = FALSE
 SPECIFICATION Spec
